@@ -245,6 +245,10 @@ def excusedPartial : List (String × String × String) := [
   -- under `if local_variables:`; the bindings were parsed from binding_set.children
   ("index", "expressions/let.py:LetExpression.from_cst", "binding_set.children[-1]"),
   ("index", "expressions/let.py:LetExpression.from_cst", "binding_set.children[0]"),
+  -- a tree-sitter `Point` is a 2-tuple (row, column): both indices exist; the stub points of the unit
+  -- tests are not subscriptable and raise TypeError, which the helper catches (fix 2e75052)
+  ("index", "expressions/points.py:point_column", "point[1]"),
+  ("index", "expressions/points.py:point_row", "point[0]"),
   -- API property, reached only because `slot.expr` is resolved by name; parse/rebuild never read it
   ("index", "expressions/source_code.py:NixSourceCode.expr", "self.expressions[0]")
 ]
